@@ -174,6 +174,19 @@ impl Unit {
         }
     }
 
+    /// The unit in which numbers of this unit's kind are compared for equality,
+    /// if this unit is convertible at all
+    pub(crate) fn canonical(&self) -> Option<Unit> {
+        match self.kind() {
+            UnitKind::Absolute => Some(Unit::Px),
+            UnitKind::Angle => Some(Unit::Deg),
+            UnitKind::Time => Some(Unit::S),
+            UnitKind::Frequency => Some(Unit::Hz),
+            UnitKind::Resolution => Some(Unit::Dppx),
+            _ => None,
+        }
+    }
+
     /// Used internally to determine if two units are comparable or not
     fn kind(&self) -> UnitKind {
         match self {
